@@ -30,6 +30,7 @@ type PtrV struct {
 	N    Node
 	Elem bool
 	Idx  *Term
+	Win  int // > 0: pointer to an array of Win bytes starting at Idx inside the byte object (slice-to-array-pointer view)
 }
 
 type SliceV struct {
@@ -484,6 +485,11 @@ func (ex *Exec) load(p PtrV) Value {
 	if p.N == nil {
 		panic("load nil (unchecked)")
 	}
+	if p.Elem && p.Win > 0 {
+		tmp := ex.newBytes(ex.tf.Const(64, uint64(p.Win)), zeroBase)
+		ex.bytesCopyIn(tmp, ex.tf.Const(64, 0), tmp.n, p.N.(*BytesNode).freeze(), p.Idx)
+		return BytesV{Mem: tmp.freeze(), N: p.Win}
+	}
 	if p.Elem {
 		return IntV{ex.bytesRead(p.N.(*BytesNode), p.Idx)}
 	}
@@ -491,6 +497,11 @@ func (ex *Exec) load(p PtrV) Value {
 }
 
 func (ex *Exec) store(p PtrV, v Value) {
+	if p.Elem && p.Win > 0 {
+		bv := v.(BytesV)
+		ex.bytesCopyIn(p.N.(*BytesNode), p.Idx, ex.tf.Const(64, uint64(p.Win)), bv.Mem, ex.tf.Const(64, 0))
+		return
+	}
 	if p.Elem {
 		ex.bytesWrite(p.N.(*BytesNode), p.Idx, v.(IntV).T)
 		return
